@@ -202,6 +202,7 @@ func CheckRegister(init int, ops []Op) (bool, string) {
 type Group struct {
 	Idx   []int // indices into ops
 	Count int
+	Slack int // the number of true flags may be anything in Count-Slack..Count (0: exactly Count)
 }
 
 // CheckSetGroups is CheckSet with composite calls decomposed: it succeeds when some
@@ -222,7 +223,7 @@ func CheckSetGroups(init [Keys]bool, ops []Op, groups []Group) (bool, string) {
 					c++
 				}
 			}
-			if c != gr.Count {
+			if c > gr.Count || c < gr.Count-gr.Slack {
 				continue
 			}
 			for i, ix := range gr.Idx {
